@@ -108,3 +108,22 @@
 (declare-fun emitLookup (Tr Int Str) Tr)
 (declare-fun lookRes (Tr Int Str) Iface)
 (declare-fun lookErr (Tr Int Str) Iface)
+
+; ---- filter application events (C07): emitFilter(t, ctx, name, value, args) is the event "the
+; filter called name was applied to value with args in ctx"; filterRes / filterErr name what that
+; application yields (abstraction, no assumption). The last event of a trace can be inspected.
+(declare-fun emitFilter (Tr Int Str Iface Slice) Tr)
+(declare-fun filterRes (Tr Int Str Iface Slice) Iface)
+(declare-fun filterErr (Tr Int Str Iface Slice) Iface)
+(declare-fun isFilterEvent (Tr) Bool)
+(declare-fun lastFilterName (Tr) Str)
+(declare-fun lastFilterCtx (Tr) Int)
+(declare-fun lastFilterVal (Tr) Iface)
+(declare-fun lastFilterRes (Tr) Iface)
+(assert (forall ((t Tr) (c Int) (n Str) (v Iface) (a Slice)) (! (and (isFilterEvent (emitFilter t c n v a)) (= (lastFilterName (emitFilter t c n v a)) n) (= (lastFilterCtx (emitFilter t c n v a)) c) (= (lastFilterVal (emitFilter t c n v a)) v) (= (lastFilterRes (emitFilter t c n v a)) (filterRes t c n v a))) :pattern ((emitFilter t c n v a)))))
+
+; ---- macro lookup events (C12): emitMacroLookup(t, ctx, name) is the event "the macro called name was
+; looked up in ctx"; macroRes / macroFound name what that lookup yields (abstraction, no assumption)
+(declare-fun emitMacroLookup (Tr Int Str) Tr)
+(declare-fun macroRes (Tr Int Str) Iface)
+(declare-fun macroFound (Tr Int Str) Bool)
